@@ -91,6 +91,9 @@ def map_families(kind, kt, vt, strat):
     keys = {"k1": (FOCUS, 1), "k2": (FOCUS, 2), "k3": (OTHER, 3)}
     add("F6-clear", keys, [S(st, "k1", v()), S(st, "k3", v())],
         [[S("Clear")], [S(st, "k2", v()), S(ld, "k1")], [S(ld, "k1"), S(ld, "k2"), S(ld, "k3")]])
+    # F6b Clear on an (almost) empty table || the first inserts
+    add("F6b-clear-empty", {"k1": (FOCUS, 1), "k2": (OTHER, 2)}, [],
+        [[S(st, "k1", v()), S(st, "k2", v())], [S(ld, "k1"), S("Clear"), S(ld, "k1")], [S("Clear"), S(ld, "k2"), S("Size")]])
     # F7 Clear || grow in progress
     pre = [S("BulkStore", lo=1, hi=thr + 1)] + [S(st, k, v()) for k in sorted(full)]
     keys = dict(full, k50=(FOCUS2, 50))
